@@ -37,7 +37,7 @@ META = {
     "rule": (
         "instants: every minute (1440) of each listed day (DST start/end days of Europe/Berlin, America/New_York, "
         "Australia/Lord_Howe; 31 Dec, 29 Feb, an ordinary day; thorough adds neighbours and other years) at second 0, plus "
-        "seconds 30 and 59.999999 for the exact expression; offsets: none, 'UTC', six timedeltas in +-26 h incl. +-5:30 and "
+        "seconds 30 and 59.999999 for the exact expression and its minute/hour neighbours; offsets: none, 'UTC', six timedeltas in +-26 h incl. +-5:30 and "
         "-0:45, IANA zones incl. 30/45-minute ones. For every (instant, offset): the exact five-field expression of the "
         "expected local minute must be due, each single-field neighbour (minute+-1, hour+-1, other day, other month, other "
         "weekday) must not be due, the day-of-month/day-of-week either-rule pair is checked, and 14 grammar expressions "
@@ -130,7 +130,7 @@ def run_shard(shard: Dict[str, Any]) -> Dict[str, Any]:
                 ]
                 secs = [(0, 0)]
                 for expr, want, shape in cases:
-                    for s, us in ([(0, 0), (30, 0), (59, 999999)] if shape == "exact" else secs):
+                    for s, us in ([(0, 0), (30, 0), (59, 999999)] if shape in ("exact", "minute+1", "minute-1", "hour+1") else secs):
                         holder[0] = base + dt.timedelta(seconds=s, microseconds=us)
                         got = run.get_task_delay(task(expr, okey, off))
                         acc.evaluations += 1
